@@ -332,6 +332,7 @@ func runC20(c *Ctx) {
 				continue
 			}
 			id := chanID(cs.State.Chan)
+			known := id == doneCh
 			if id == doneCh && cs.Body != nil {
 				if _, reaches := reachFromBlock(cs.Body, func(x ssa.Instruction) bool { return x == ssa.Instruction(secExec) }, nil); !reaches {
 					hasDoneReturn = true
@@ -339,11 +340,22 @@ func runC20(c *Ctx) {
 			}
 			for _, cl := range closes {
 				if cl.ch == id && id != doneCh {
-					hasFailed = true
+					hasFailed, known = true, true
 				}
 			}
 			if k, ok := loadedField(cs.State.Chan); ok && k == "time.Timer.C" {
-				hasTimer = true
+				hasTimer, known = true, true
+			}
+			// any other case must not lead to the Exec (e.g. a ctx case that returns is fine; one that falls through starts
+			// the secondary although the primary neither failed nor exceeded the threshold)
+			if !known {
+				leads := cs.Body == nil
+				if cs.Body != nil {
+					_, leads = reachFromBlock(cs.Body, func(x ssa.Instruction) bool { return x == ssa.Instruction(secExec) }, nil)
+				}
+				c.check(!leads, "gate-other-case-does-not-start-secondary@"+funcName(sec)+":"+exprStr(cs.State.Chan), instrPos(gate.sel),
+					"a gate case other than failed/timer does not lead to the secondary's Exec",
+					"the gate select also opens on "+exprStr(cs.State.Chan)+": the secondary is started although the primary neither failed nor exceeded the threshold")
 			}
 		}
 		// Exec not reachable from entry avoiding the gate unless alwaysStandby is true
@@ -688,8 +700,47 @@ func runC20(c *Ctx) {
 	}
 
 	// ---------------------------------------------------------------- R7
-	c.rule("R7", "the threshold timer comes from the pool undisturbed: pooled timers are drained when they already fired", 2)
+	c.rule("R7", "the threshold timer comes from the pool undisturbed: pooled timers are drained when they already fired; the waiter owns its timer", 4)
 	checkPooledTimers(c)
+	// the goroutine that waits on the threshold timer is the one that took it from the pool and releases it: a timer
+	// released by another goroutine (e.g. by doFallback's own defer when the call ends early) is re-armed by the next
+	// call while this waiter still sits on its channel and steals the tick (round 12)
+	{
+		n := 0
+		for i := range secSels {
+			for _, cs := range secSels[i].cases {
+				k, ok := loadedField(cs.State.Chan)
+				if !ok || k != "time.Timer.C" {
+					continue
+				}
+				n++
+				var base ssa.Value
+				if u, ok := cs.State.Chan.(*ssa.UnOp); ok {
+					base = fieldBase(u.X)
+				}
+				own := false
+				if cl, ok := base.(*ssa.Call); ok && cl.Parent() == sec {
+					cn := callName(cl)
+					own = cn == relPool+".GetTimer" || cn == "time.NewTimer"
+				}
+				released := false
+				eachInstr(sec, func(in ssa.Instruction) {
+					if d, ok := in.(*ssa.Defer); ok && callNameCommon(d.Common()) == relPool+".ReleaseTimer" && len(d.Call.Args) == 1 && d.Call.Args[0] == base {
+						released = true
+					}
+				})
+				if cl, ok := base.(*ssa.Call); ok && callName(cl) == "time.NewTimer" {
+					released = true // not pooled
+				}
+				c.check(own && released, "threshold-timer-owned-by-its-waiter@"+funcName(sec), instrPos(secSels[i].sel),
+					"the timer waited on is taken from the pool and released (deferred) by the waiting goroutine itself",
+					"the secondary waits on a timer ("+exprStr(base)+") that it did not take from the pool itself or does not release itself: when the call ends first the timer goes back to the pool armed, the next call re-arms it and this waiter takes its tick — that call's secondary is not started / released at the threshold")
+			}
+		}
+		if n == 0 {
+			c.anchorMissing("a select case on the threshold timer in the secondary worker")
+		}
+	}
 
 	// ---------------------------------------------------------------- R6
 	c.rule("R6", "workers run on their own copies of the query context taken before the goroutine starts, with a deadline context from the caller; the threshold is the configured number of milliseconds", 6)
